@@ -228,7 +228,7 @@ def check_result(tag, net, res, mode, stats):
             tol = 0.1 * scale * max(1.0, 50.0 / max(min_sight(net), 1.0))
         else:
             r *= 1e3   # mm
-            tol = 0.01 * scale
+            tol = 0.02 * scale      # (two stopping criteria may add up: 0.1 cc on the zenith reduction, 0.001 mm on the slope reduction)
         stats.ratio("residual", abs(r) / tol)
         if abs(r) > tol:
             fails.append("%s.residual: %s %s->%s adjusted-observed = %.4g (tol %.3g)" % (tag, o["tag"], o.get("from", o.get("id")), o.get("to", ""), r, tol))
